@@ -55,7 +55,18 @@ def _is_authorized_type(tpe: Type[Any], gctx: EvalMainContext) -> bool:
     """
     if tpe is None:
         return True
-    if tpe in (int, float, str, bytes, PurePosixPath, FunctionType, ModuleType):
+    if tpe in (
+        int,
+        float,
+        str,
+        bytes,
+        bool,
+        tuple,
+        type(None),
+        PurePosixPath,
+        FunctionType,
+        ModuleType,
+    ):
         return True
     # Some specific structural types are more complex and can be user-controlled.
     if get_option(accept_list_option) and tpe in (list,):
